@@ -178,9 +178,15 @@ pub fn display_ident_part(f: &mut std::fmt::Formatter, s: &str) -> Result<(), st
     fn forbidden_subsequent(c: char) -> bool {
         !(c.is_ascii_alphabetic() || c.is_ascii_digit() || c == '_')
     }
+    // words the lexer reads as a keyword or a literal rather than an identifier
+    const RESERVED: [&str; 13] = [
+        "let", "into", "case", "prql", "type", "module", "internal", "func", "import", "enum",
+        "true", "false", "null",
+    ];
     let needs_escape = s.is_empty()
         || s.starts_with(forbidden_start)
-        || (s.len() > 1 && s.chars().skip(1).any(forbidden_subsequent));
+        || (s.len() > 1 && s.chars().skip(1).any(forbidden_subsequent))
+        || RESERVED.contains(&s);
 
     if needs_escape {
         write!(f, "`{s}`")
